@@ -132,9 +132,6 @@ def render_ini(doc):
 
 # ------------------------------------------------------------------ round 10: unsplit_lines, optlist_to_dict, IniConfigFile.set / getint / getfloat
 
-OPTLIST_FINDING = "optlist-empty-value-strip-quotes"
-
-
 class _RowList(list):
     """a list that can take attributes: keyword_search keeps its `_transform_cache` on such a rows object itself"""
     pass
@@ -802,7 +799,6 @@ def evaluate(c):
         r2 = call()
         same_twice(fails, "optlist_to_dict", a, err(r2) if isinstance(r2, Exception) else show_optdict(r2))
         if "items" in c and c.get("oracle"):
-            fid = OPTLIST_FINDING if (sq and kv is not None and any(it[0] == "kv" and it[4] == "" for it in c["items"])) else None
             want = OrderedDict()
             for it in c["items"]:
                 if it[0] == "flag":
@@ -817,7 +813,7 @@ def evaluate(c):
             got = None if isinstance(r, Exception) or not isinstance(r, dict) else list(r.items())
             if got != list(want.items()):
                 fails.append(("optlist_to_dict(%r, opt_sep=%r, kv_sep=%r, strip_quotes=%r) = %s, the rendered options (last wins, in order) are %r" % (
-                    text, osep, kv, sq, ("raised " + repr(r)) if isinstance(r, Exception) else repr(r), list(want.items())), fid))
+                    text, osep, kv, sq, ("raised " + repr(r)) if isinstance(r, Exception) else repr(r), list(want.items())), None))
         return "optlist\t%s\t%s\t%s\t%s" % (enc(osep), O(kv), B(sq), enc(text)), a, fails
     if op == "iniset":
         lines = render_ini(c["doc"]) if "doc" in c else c["lines"]
